@@ -58,7 +58,8 @@ fn gen_program(rng: &mut Rng) -> Program {
         fail_kind: *rng.pick(&["error-make", "error-make", "missing-column", "meta-not-a-record", "meta-null-at-run-time"]),
         appends,
         ret: *rng.pick(&["nothing", "string", "int", "float", "bool", "list", "record", "empty-string", "empty-list", "empty-record", "zero", "false", "frame-of-another-handler", "frame-like-record"]),
-        suffix: *rng.pick(&[None, None, Some(".res"), Some(".done.x")]),
+        // (a suffix is appended to the name as it is: with one leading dot, none, or two)
+        suffix: *rng.pick(&[None, None, Some(".res"), Some(".done.x"), Some("-result"), Some("..deep")]),
         ret_ttl: *rng.pick(&[None, None, Some("head:1"), Some("ephemeral"), Some("forever")]),
     }
 }
